@@ -300,8 +300,10 @@ bi31_next(bitint_iter_t *restrict iter, bitint31_t bi)
 			/* switch to negatives */
 			*iter = 33U;
 		}
-	} else if (*iter > 32 && *iter < 64 && (bi.neg >>= (*iter - 32U))) {
-		/* we're doing negatives alright */
+	} else if ((*iter > 32 || (*iter = 33U)) && *iter < 64 &&
+		   (bi.neg >>= (*iter - 32U))) {
+		/* we're doing negatives alright, if there were no positives
+		 * (left) the iterator has just been moved there */
 		for (; !(bi.neg & 0b1U); (*iter)++, bi.neg >>= 1U);
 		res = 32 - (*iter)++;
 	} else {
@@ -359,8 +361,10 @@ bi63_next(bitint_iter_t *restrict iter, bitint63_t bi)
 			/* switch to negatives */
 			*iter = 65U;
 		}
-	} else if (*iter > 64 && *iter < 128 && (bi.neg >>= (*iter - 64U))) {
-		/* we're doing negatives alright */
+	} else if ((*iter > 64 || (*iter = 65U)) && *iter < 128 &&
+		   (bi.neg >>= (*iter - 64U))) {
+		/* we're doing negatives alright, if there were no positives
+		 * (left) the iterator has just been moved there */
 		for (; !(bi.neg & 0b1U); (*iter)++, bi.neg >>= 1U);
 		res = 64 - (*iter)++;
 	} else {
